@@ -13,6 +13,7 @@ Three corners:
 import importlib
 import math
 import struct
+import time
 from datetime import datetime, timedelta, timezone
 from decimal import Decimal
 
@@ -356,6 +357,13 @@ def ask_val(m, req):
 def run(ctx, out):
     thorough = ctx.tier == 'thorough'
     rng = ctx.rng
+    t0 = time.time()
+    phases = {}
+
+    def phase(name):
+        nonlocal t0
+        phases[name] = round(time.time() - t0, 2)
+        t0 = time.time()
     E, T = load_tables()
     m = common.Model()
     N = 4000 if thorough else 250
@@ -411,6 +419,8 @@ def run(ctx, out):
         s, p = dec_text(r, p)
         formats.append(s)
 
+    phase('A tables')
+
     # ---------- B. correspondence of every conversion, both directions ----------
     def corr_entry(which, k, i, nm, dt, vals, extra):
         for v in vals:
@@ -455,9 +465,18 @@ def run(ctx, out):
             if t is None or t is float:
                 continue
             vals = values[t]
-            if which == 'xml' or nm not in ('EString', 'EBoolean', 'EBooleanObject', 'EInt', 'EBigInteger', 'EDate',
-                                            'EBigDecimal', 'EChar'):
-                vals = vals[::7] if not thorough else vals[::2]      # same tag pair as a fully sampled entry
+            primary = (which, nm) in (('ecore', 'EString'), ('ecore', 'EBoolean'), ('ecore', 'EBooleanObject'),
+                                      ('ecore', 'EInt'), ('ecore', 'EBigInteger'), ('ecore', 'EDate'),
+                                      ('ecore', 'EBigDecimal'), ('ecore', 'EChar'), ('xml', 'Integer'),
+                                      ('xml', 'Boolean'), ('xml', 'Byte'))
+            if not primary:
+                # same tag pair as a fully sampled entry: a thinner sample, and no integers above 2^1100
+                # (the extracted str(int) is quadratic: 1.6 s for a 14000-bit value)
+                vals = vals[::7] if not thorough else vals[::4]
+                if t is int:
+                    vals = [v for v in vals if abs(v) < 2 ** 1100]
+            elif t is int and nm not in ('EBigInteger', 'Integer'):
+                vals = [v for v in vals if abs(v) < 2 ** 4200]
             if t is datetime:
                 vals = vals + low_year_dates
             extra = []
@@ -471,6 +490,8 @@ def run(ctx, out):
                 extra = []
             corr_entry(which, k, i, nm, dt, vals, extra)
             stats['entries'] += 1
+
+    phase('B conversions')
 
     # the strptime fall-back of parse_date, one format at a time (unreachable through parse_date on CPython >= 3.11
     # for the formatter's image, hence compared with datetime.strptime directly)
@@ -497,6 +518,8 @@ def run(ctx, out):
         ok = (math.isnan(f) and math.isnan(g)) or bits_of(f) == bits_of(g)
         if not ok or type(g) is not float or str(f) != repr(f):
             out.diff(f'CPython float(repr(f)) != f for f = {f.hex()}', {'float_hex': f.hex()})
+
+    phase('B strptime+float hypothesis')
 
     # ---------- C. enumerations ----------
     enum_cases = gen_enums(rng, 60 if not thorough else 600)
@@ -547,6 +570,8 @@ def run(ctx, out):
             out.fail({'property': 'C17', 'datatype': 'EEnum', 'clause': 'value', 'region': 'constructor-literals'},
                      f'{o!r} does not come back', {'enum': 'Colour', 'literal': o.name})
 
+    phase('C enumerations')
+
     # ---------- D. oracle: the property on the implementation ----------
     oracle_types = []
     for which, mod, foreign in (('ecore', E, ()), ('xml', T, tuple(impl_datatypes(E, E).values()))):
@@ -563,8 +588,10 @@ def run(ctx, out):
             for v in vals:
                 oracle_one(out, stats, which, nm, dt, v)
     m.close()
+    phase('D oracle')
 
     out.coverage.update({
+        'phase_seconds': phases,
         'evaluations': stats['oracle'],
         'distinct_nontrivial': len(stats['distinct']),
         'rule': 'a case = (data type object, value); distinct_nontrivial counts distinct (Python type, value) pairs '
